@@ -113,6 +113,7 @@ def run(ctx):
     r12_units(ctx, 'R1.2')
     r110(ctx)
     r19_floored(ctx)
+    r114(ctx)
     from . import c17
     c17.r175(ctx, 'R1.11')
 
@@ -437,3 +438,69 @@ def r19_floored(ctx, rule='R1.9'):
     ctx.ob(rule, 'writer.convert:int96-day-and-nanoseconds-are-a-floored-quotient/remainder-pair',
            len(pairs) == 1 and len(quos) >= 1 and norm(pairs[0].left) == norm(quos[0].left),
            'day = x // ns_per_day, ns = x %% ns_per_day over the same x: %s / %s' % ([norm(x) for x in quos][:2], [norm(x) for x in pairs][:2]), wr.loc(f))
+
+
+def r114(ctx, rule='R1.14'):
+    """writer.convert, datetimes: (a) the INT96 arm splits *nanoseconds* into day and nanosecond-of-day, so its
+    operand must be the column brought to nanosecond resolution - the raw int64 view counts the column's own unit;
+    (b) an arm that scales the raw counts by a factor restores the NaT sentinel afterwards (NaT takes part in the
+    multiplication whenever nulls were not split off)"""
+    wr = ctx.repo['writer']
+    f = wr.func('convert')
+    cfg = CFG(f)
+    arm = [st for st in iter_child_stmts(f.body) if isinstance(st, ast.If) and 'INT96' in norm(st.test) and "dtype.kind == 'M'" in norm(st.test)]
+    ctx.ob(rule, 'writer.convert:INT96-datetime-arm-present', len(arm) == 1, '', wr.loc(f))
+    if len(arm) == 1:
+        body = arm[0].body
+        quos = [x for st in body for x in ast.walk(st) if isinstance(x, ast.BinOp) and isinstance(x.op, (ast.FloorDiv, ast.Mod)) and norm(x.right) == 'ns_per_day']
+        ctx.floor(rule, 'day / nanosecond split operations', len(quos), 1)
+        defs = {norm(st.targets[0]): st.value for st in body if isinstance(st, ast.Assign) and len(st.targets) == 1}
+        for x in quos:
+            e = x.left
+            seen = 0
+            while isinstance(e, ast.Name) and norm(e) in defs and seen < 4:
+                e = defs[norm(e)]
+                seen += 1
+            t = norm(e)
+            in_ns = ("astype('M8[ns]')" in t or "astype('datetime64[ns]')" in t) and t.endswith(".view('int64')")
+            guarded_ns = any("'ns'" in norm(e2.test) and 'dtype' in norm(e2.test) for e2, fld in cfg.enclosing_tests(arm[0].body[0]) if isinstance(e2, ast.If)) \
+                or "'ns'" in norm(arm[0].test)
+            ctx.ob(rule, 'writer.convert:INT96-split-operand-is-in-nanoseconds:%s' % type(x.op).__name__, in_ns or guarded_ns,
+                   '`%s` with operand `%s`: ns_per_day is a count of nanoseconds, the raw int64 view of a datetime64[s|ms|us] '
+                   'column is not' % (norm(x)[:60], t[:80]), wr.loc(x))
+    # (b) scaling arms
+    n = 0
+    for st in iter_child_stmts(f.body):
+        if isinstance(st, ast.Assign) and isinstance(st.value, ast.BinOp) and isinstance(st.value.op, ast.Mult) \
+                and norm(st.value.right) == 'factor':
+            n += 1
+            out = norm(st.targets[0])
+            operand = norm(st.value.left)
+            blk = None
+            for b in _all_blocks(f.body):
+                if any(x is st for x in b):
+                    blk = b
+            after = blk[[i for i, x in enumerate(blk) if x is st][0] + 1:] if blk else []
+            restored = False
+            for a in after:
+                for x in ast.walk(a):
+                    if isinstance(x, ast.Assign) and isinstance(x.targets[0], ast.Subscript) and norm(x.targets[0].value) == out \
+                            and norm(x.value) == 'nat' and 'nat' in norm(x.targets[0].slice) and operand.split('.')[0] in norm(x.targets[0].slice):
+                        restored = True
+            ctx.ob(rule, 'writer.convert:NaT-restored-after-scaling:%s' % norm(st)[:40], restored,
+                   '`%s`: NaT (int64 min) times a factor other than 1 wraps (to 0 for 1000); the sentinel must be put back '
+                   'where the input held it' % norm(st), wr.loc(st))
+    ctx.floor(rule, 'datetime scaling sites in writer.convert', n, 1)
+
+
+def _all_blocks(stmts):
+    yield stmts
+    for st in stmts:
+        if isinstance(st, (ast.FunctionDef, ast.AsyncFunctionDef, ast.ClassDef)):
+            continue
+        for fld in ('body', 'orelse', 'finalbody'):
+            sub = getattr(st, fld, None)
+            if isinstance(sub, list) and sub:
+                yield from _all_blocks(sub)
+        for h in getattr(st, 'handlers', []) or []:
+            yield from _all_blocks(h.body)
